@@ -1567,6 +1567,34 @@ variant('b-graphql-yield-outside-generator-exit-guard', ['C09'], 'rsocket/graphq
 variant('b-rx-feedback-subject-replays', ['C20', 'C06'], 'rsocket/rx_support/back_pressure_publisher.py',
         "        self._feedback = Subject()", "        self._feedback = ReplaySubject()",
         ('C20.i', 'the credit channel does not replay'))
+variant('b-lifetime-clamped-to-keepalive-period', ['C15', 'C16'], RB,
+        "        self._max_lifetime_period = max_lifetime_period\n",
+        "        self._max_lifetime_period = max(max_lifetime_period, keep_alive_period)\n",
+        ('C16.c', '_max_lifetime_period'))
+variant('b-unknown-handler-record-replaced', ['C19'], 'rsocket/routing/request_router.py',
+        "            self._unknown.stream = RouteInfo(function)", "            self._unknown = Handlers(stream=RouteInfo(function))",
+        ('C19.b', 'routing table row / stream'))
+variant_multi('b-rx-adapter-shared-response-operators', ['C20'], [
+    ('rsocket/rx_support/rx_handler_adapter.py',
+     "        return observable.pipe(\n            operators.default_if_empty(Payload()),\n            operators.to_future()\n        )",
+     "        return observable.pipe(*self._as_response)"),
+    ('rsocket/rx_support/rx_handler_adapter.py', "        self.delegate = delegate\n",
+     "        self.delegate = delegate\n        self._as_response = (operators.default_if_empty(Payload()), operators.to_future())\n")],
+    ('C20.j', 'rx_support RxHandlerAdapter.request_response'))
+variant('b-logger-table-entry-with-other-signature', ['C12'], 'rsocket/frame_logger.py',
+        "    FrameType.REQUEST_N: log_request_n,", "    FrameType.REQUEST_N: log_request_n,\n    None: log_invalid,",
+        ('C12.i', 'log_invalid'))
+variant('b-allocation-refused-by-table-size', ['C13'], SCF,
+        "    def allocate_stream(self) -> int:\n        attempt_counter = 0\n",
+        "    def allocate_stream(self) -> int:\n        if len(self._streams) > self._maximum_stream_id // 2:\n            raise RSocketStreamAllocationFailure()\n        attempt_counter = 0\n",
+        ('C13.c', 'gives up only when the attempts are used up'))
+variant('b-lease-queue-not-failed-on-close', ['C17', 'C11'], RB,
+        "        for queue in (self._send_queue, self._request_queue):", "        for queue in (self._send_queue,):",
+        ('C11.g', 'lease hold queue'))
+variant('b-setup-protocol-error-passed-through', ['C16'], RB,
+        "        except Exception as exception:\n            logger().error('%s: Setup error', self._log_identifier(), exc_info=True)",
+        "        except RSocketProtocolError:\n            raise\n        except Exception as exception:\n            logger().error('%s: Setup error', self._log_identifier(), exc_info=True)",
+        ('C16.d', 'on_setup raising'))
 variant('b-send-error-noop', ['C12'], RB,
         "        self.send_frame(exception_to_error_frame(stream_id, exception))",
         "        logger().error('error on stream %s: %s', stream_id, exception)", ('C12.b', 'RSocketBase.send_error'))
